@@ -1,4 +1,5 @@
 import Rn.Basic
+import Rn.Stage2
 namespace RnDrv
 open Rn
 
@@ -13,6 +14,25 @@ partial def loop (h : IO.FS.Stream) : IO Unit := do
   | ["scan", a, d] =>
     let (m, sa, sd) := scan ((parse a).mergeSort (· ≤ ·)) ((parse d).mergeSort (· ≤ ·))
     IO.println s!"m:{fmt m} a:{fmt sa} d:{fmt sd}"
+  | ["rn2", ds, as, ms] =>
+    -- ds / as: `id:hash,…` of the deleted / added files, ms: the reported renames `d>a,…`
+    let pairs := fun (s : String) => if s = "-" then [] else (s.splitOn ",").filterMap fun t =>
+      match t.splitOn ":" with
+      | [i, hsh] => some (i.toNat!, hsh.toNat!)
+      | _ => none
+    let dl := pairs ds
+    let al := pairs as
+    let look := fun (l : List (Nat × Nat)) (i : Nat) => ((l.find? (·.1 = i)).map (·.2)).getD 0
+    let mt := if ms = "-" then [] else (ms.splitOn ",").filterMap fun t =>
+      match t.splitOn ">" with
+      | [d, a] => some (d.toNat!, a.toNat!)
+      | _ => none
+    let del := dl.map (·.1)
+    let add := al.map (·.1)
+    if !resultOK del add (look dl) (look al) mt ((dl ++ al).map (·.2)).eraseDups then IO.println "bad"
+    else match applyMatches del add mt with
+      | some (d', a') => IO.println s!"ok d:{fmt (d'.mergeSort (· ≤ ·))} a:{fmt (a'.mergeSort (· ≤ ·))}"
+      | none => IO.println "bad"
   | ["nop"] => IO.println "ok"
   | _ => IO.println "bad-op"
   loop h
